@@ -206,10 +206,12 @@ def search_callsite(ctx, rep, cfgs=None):
 def phrase_size(ctx, rep):
     """C17 clause 1: 16*max(len)+15*sep < POLYSEED_STR_SIZE in NFKD (internal) and NFC (caller) form"""
     T = ctx.tables(); langs = T.ordered()
-    size = T.str_size()
-    rep.rule('SIZE-1', 'for every language: 16 * (longest stored/NFKD word) + 15 * separator < sizeof(polyseed_str) (the internal '
-             'temporary written by the unguarded writer) and 16 * (longest NFC word) + 15 * (NFC separator) < sizeof(polyseed_str) '
-             '(the caller\'s buffer); sizeof(polyseed_str) is read from the compiled typedef')
+    size = T.public_str_size()
+    rep.rule('SIZE-1', 'for every language: 16 * (longest stored/NFKD word) + 15 * separator < sizeof(polyseed_str) and 16 * (longest NFC word) + 15 * (NFC separator) < '
+             'sizeof(polyseed_str), where polyseed_str is the PUBLIC typedef of include/polyseed.h (type-resolved by clang): the property bounds both forms by the public '
+             'size, because callers size their buffers with it and hand such buffers to the normalisers; the typedef compiled into the library has the same size')
+    rep.check(T.str_size() == size, 'the library is compiled with the public buffer size (%d)' % size, 'include/polyseed.h', 'polyseed_str: public %d bytes, compiled %d bytes' % (size, T.str_size()),
+              key='SIZE-1|public-vs-compiled')
     rep.info['POLYSEED_STR_SIZE'] = size
     rep.instances(len(langs), 10, 'languages')
     tab = {}
